@@ -9,6 +9,7 @@ static Fault LoadFault(const js::J& f) {
   ft.exit_code = (int)f["code"].num(1);
   ft.touch = f["touch"].boolean(false);
   ft.by_signal = f["signal"].boolean(false);
+  ft.bad_depfile = f["baddep"].boolean(false);
   return ft;
 }
 
